@@ -592,6 +592,40 @@ def run(tier, seed, replay):
         dst = max(np.abs(x.full() - y.full()).max() for k in range(4) for x, y in zip(rc.runs_states[k], rcf.runs_states[k]))
         if dtr > 1e-8 or dst > 1e-8:
             v("nm-args:other-args-on-a-used-solver", f"nm_mcsolve: a run with amp={-0.5 * amp} on a solver that had run with amp={amp} differs from a fresh solver: trace weights by {dtr:.2e}, states by {dst:.2e}", {"amp": amp})
+    # ------------------------------------------------------------------ non-Markovian: the step interface returns state x trace weight,
+    # whatever intermediate times were asked for, and agrees with run() for the same seed
+    def rate_s(t):
+        return 0.5 - 0.9 * np.sin(2.0 * t) ** 2
+    Hs_ = 0.5 * qutip.sigmax()
+    ops_s = [(qutip.sigmam(), qutip.coefficient(rate_s)), (qutip.sigmap(), 0.15)]
+    psis = (qutip.basis(2, 0) + 0.3 * qutip.basis(2, 1)).unit()
+    tls = np.linspace(0, 2.0, 9)
+    for sd in (11, 12, 13):
+        try:
+            with warnings.catch_warnings():
+                warnings.simplefilter("ignore")
+                with core.time_limit(300):
+                    sol = qutip.NonMarkovianMCSolver(Hs_, ops_s, options={"progress_bar": "", "keep_runs_results": True, "store_states": True, "atol": 1e-11, "rtol": 1e-10,
+                                                                          "norm_tol": 1e-9, "norm_t_tol": 1e-9, "norm_steps": 30, "nsteps": 20000})
+                    rr = sol.run(psis, tls, ntraj=1, seeds=sd)
+                    ref = [st * tr for st, tr in zip([x if x.isoper else x.proj() for x in rr.runs_states[0]], np.asarray(rr.runs_trace)[0])]
+                    out = {}
+                    for name, idx in (("every", list(range(1, len(tls)))), ("coarse", [3, 8]), ("final-only", [8]), ("uneven", [1, 2, 6, 8])):
+                        sol.start(psis, tls[0], seed=sd)
+                        out[name] = {i: sol.step(tls[i]) for i in idx}
+        except core.CaseTimeout:
+            raise
+        except Exception as e:
+            v("nm-step:raises", f"{type(e).__name__}: {e}"[:200])
+            continue
+        rep.evaluations += 1
+        rep.count("nm-step")
+        for name, got in out.items():
+            for i, st in got.items():
+                dd = np.abs(st.full() - ref[i].full()).max()
+                if dd > 1e-4:
+                    v(f"nm-step:{name}", f"NonMarkovianMCSolver.step ({name} steps, seed {sd}) at t={tls[i]:.3g}: state x trace weight differs from run() with the same seed by {dd:.2e} (trace {st.tr():.6g} against {ref[i].tr():.6g})", {"seed": sd, "steps": name, "index": i})
+                    break
     for sig, (what, data) in viol.items():
         rep.violation(core.Violation("C16:" + sig, what, data))
     if (ndis or not proved) and not rep.violations:
